@@ -178,11 +178,22 @@ def addRouted (s : St K) (e : CEv) : St K := { s with routed := s.routed ++ [e] 
 /-- `self._event_queue.append(event)` -/
 def enqueue (s : St K) (e : CEv) : St K := { s with queue := s.queue ++ [e] }
 
-/-- `event_to_child` -/
-def eventToChild (child : Child) (s : St K) (e : CEv) : St K :=
-  if s.errored then addRouted s e
-  else if s.st = .establishing && !s.replyTo then enqueue (addRouted s e) e
-  else deliver child (addRouted s e) e
+def isEst : TState → Bool
+  | .establishing => true
+  | _ => false
+
+/-- `self.tunnel_state is TunnelState.ESTABLISHING and not self.command_to_reply_to` -/
+def queueing (s : St K) : Bool := isEst s.st && !s.replyTo
+
+/-- `event_to_child` proper -/
+def etcCore (child : Child) (s : St K) (e : CEv) : St K :=
+  if s.errored then s
+  else if queueing s then enqueue s e
+  else deliver child s e
+
+/-- `event_to_child`, with the ghost record that the event arrived (a stored event that `_handshake_finished` passes to
+    `event_to_child` a second time is not a new arrival: the flush uses `etcCore`) -/
+def eventToChild (child : Child) (s : St K) (e : CEv) : St K := etcCore child (addRouted s e) e
 
 def feedIf (c : K.σ) (d : Bytes) : K.σ := if d.isEmpty then c else K.feed c d      -- `if data: self.tls.bio_write(data)`
 def afterRecv (s : St K) (c2 : K.σ) (e : RecvEnd) : St K := { s with tls := some c2, rxError := s.rxError || e == .err }
@@ -201,6 +212,8 @@ def receiveData (child : Child) (s : St K) (d : Bytes) : St K :=
 
 /-- `TLSLayer.start_tls`: true = an SSL object is in place -/
 def startTls (env : Env K) (s : St K) : St K × Bool :=
+  if s.tls.isSome then ({ s with crashed := true }, false)      -- `assert not self.tls`
+  else
   let s := emit s [.hook 0]
   match env.mkTls with
   | none => (emit s [.log 0, .close], false)
@@ -235,9 +248,7 @@ def recvHandshake (env : Env K) (child : Child) (s : St K) (d : Bytes) : St K ×
         let s := if env.serverFirst then emit s [.openServer] else s
         match startTls env s with
         | (s, false) => (s, false, true)          -- "connection closed early"
-        | (s, true) =>
-          let (s, dn, er) := hsTls child s buf
-          ({ s with recvBuf := [] }, dn, er)
+        | (s, true) => hsTls child { s with recvBuf := [] } buf      -- (the code clears recv_buffer afterwards; nothing in between reads it)
 
 /-- `on_handshake_error` (TLSLayer + the side's override + TunnelLayer) -/
 def onHandshakeError (s : St K) : St K :=
@@ -252,7 +263,7 @@ def clearQueue (s : St K) : St K := { s with queue := [] }
 def handshakeFinished (child : Child) (s : St K) (err : Bool) : St K :=
   let t := setSt s (if err then .closed else .open_)
   if s.replyTo then clearReply (eventToChild child t (.opened err))
-  else clearQueue (s.queue.foldl (eventToChild child) t)
+  else clearQueue (s.queue.foldl (etcCore child) t)
 
 /-- `start_handshake` -/
 def startHandshake (env : Env K) (child : Child) (s : St K) : St K :=
@@ -288,7 +299,8 @@ def handle (env : Env K) (child : Child) (s : St K) : Ev → St K
     { s with st := .closed }
   | .other n => eventToChild child s (.other n)
   | .openReply err =>
-    if err then { eventToChild child s (.opened true) with st := .closed }
+    if !s.replyTo then s            -- there is no OpenConnection of ours to be answered
+    else if err then { eventToChild child s (.opened true) with st := .closed }
     else startHandshake env child s
 
 def run (env : Env K) (child : Child) (s : St K) (evs : List Ev) : St K := evs.foldl (handle env child) s
@@ -319,6 +331,7 @@ structure Laws (K : Codec) where
   dec : Bytes → Bytes × Bool
   enc : Bytes → Bytes
   dec_mono : ∀ a b, ∃ t, (dec (a ++ b)).1 = (dec a).1 ++ t
+  enc_nil : enc [] = []
   feed_fed : ∀ s x, fed (K.feed s x) = fed s ++ x
   feed_taken : ∀ s x, taken (K.feed s x) = taken s
   feed_out : ∀ s x, sent (K.feed s x) = sent s ∧ emitted (K.feed s x) = emitted s
